@@ -47,7 +47,7 @@ NEG = {
 
 TIERS = {
     "quick": {"mc": "MC_ProcGroups_quick.cfg", "gen": "Gen_ProcGroups_quick.cfg", "neg": sorted(NEG),
-              "dfs_depth": 6, "max_dfs": 12, "random": 2, "nrandom": 1500, "shards": 6, "workers": 6},
+              "dfs_depth": 6, "max_dfs": 12, "random": 2, "nrandom": 600, "shards": 6, "workers": 6},
     "thorough": {"mc": "MC_ProcGroups_thorough.cfg", "gen": "Gen_ProcGroups_thorough.cfg", "neg": sorted(NEG),
                  "dfs_depth": 10, "max_dfs": 200, "random": 8, "nrandom": 30000, "shards": 8, "workers": 8},
 }
@@ -198,29 +198,27 @@ def run(tier):
     rep = vlib.Reporter(PID)
     vlib.build_harness(PKG)
 
+    # G16_SKIP_MODEL=1 (mutant self-tests only): skip the stages that do not
+    # depend on the code under test
+    skip_model = os.environ.get("G16_SKIP_MODEL") == "1"
+
     # calibration: a failing ASSUME is a tool error
     r = vlib.tlc("Calib_ProcGroups", "Calib_ProcGroups.cfg", workers=1, timeout=600)
     vlib.tlc_must_pass(r, "Calib_ProcGroups (worked examples of the manual and the scripted tests)")
     with open(os.path.join(vlib.SPEC, "Calib_ProcGroups.tla")) as f:
         n_assume = sum(1 for line in f if line.startswith("ASSUME"))
 
-    # P1: the laws on the bounded model, every interleaving, deadlock checking on
-    r = vlib.tlc("MC_ProcGroups", t["mc"], workers=t["workers"], timeout=2400, deadlock=True)
-    vlib.tlc_must_pass(r, f"model check {t['mc']}")
-    vlib.log(f"[tlc] {t['mc']}: {r.distinct} distinct states, {r.generated} generated, depth {r.depth}, {r.wall:.1f}s; "
-             f"{len(LAWS)} laws + deadlock freedom hold")
-    states, transitions = r.distinct, r.generated
+    neg_pool = ThreadPoolExecutor(max_workers=4)
+    neg_futures = [neg_pool.submit(_neg_one, v) for v in ([] if skip_model else t["neg"])]
 
-    # negative configurations: every wrong variant must be refuted by its law
-    with ThreadPoolExecutor(max_workers=4) as ex:
-        negs = list(ex.map(_neg_one, t["neg"]))
-    refuted = {}
-    for v, ok, nr in negs:
-        if not ok:
-            vlib.log(f"[tlc] negative configuration {v}: NOT refuted ({(nr.violation or nr.error or 'no violation')[:400]})")
-            raise vlib.ToolError(f"the wrong variant {v} is not refuted by {NEG[v]}: the law is vacuous or the model is wrong")
-        refuted[v] = {"law": NEG[v], "states": nr.distinct}
-    vlib.log(f"[tlc] {len(refuted)} wrong variants refuted: " + ", ".join(f"{v} ({x['law']})" for v, x in sorted(refuted.items())))
+    # P1: the laws on the bounded model, every interleaving, deadlock checking on
+    states = transitions = 0
+    if not skip_model:
+        r = vlib.tlc("MC_ProcGroups", t["mc"], workers=t["workers"], timeout=2400, deadlock=True)
+        vlib.tlc_must_pass(r, f"model check {t['mc']}")
+        vlib.log(f"[tlc] {t['mc']}: {r.distinct} distinct states, {r.generated} generated, depth {r.depth}, {r.wall:.1f}s; "
+                 f"{len(LAWS)} laws + deadlock freedom hold")
+        states, transitions = r.distinct, r.generated
 
     # P2: the catalogue
     gen = os.path.join(wd, "gen.ndjson")
@@ -310,6 +308,18 @@ def run(tier):
             os.remove(p)
         except OSError:
             pass
+
+    # negative configurations (started above, in the background): every wrong
+    # variant must be refuted by its law
+    negs = [f.result() for f in neg_futures]
+    neg_pool.shutdown()
+    refuted = {}
+    for v, ok, nr in negs:
+        if not ok:
+            vlib.log(f"[tlc] negative configuration {v}: NOT refuted ({(nr.violation or nr.error or 'no violation')[:400]})")
+            raise vlib.ToolError(f"the wrong variant {v} is not refuted by {NEG[v]}: the law is vacuous or the model is wrong")
+        refuted[v] = {"law": NEG[v], "states": nr.distinct}
+    vlib.log(f"[tlc] {len(refuted)} wrong variants refuted: " + ", ".join(f"{v} ({x['law']})" for v, x in sorted(refuted.items())))
 
     rc = rep.finish()
     vlib.write_evidence(PID, tier, {
